@@ -641,7 +641,9 @@ class AperCheck(Check):
                 continue
             info["spec_bad"] += 1
             why = "implementation differs from %s" % ("specification" if st.spec_check else "model (proved equal to the specification)")
-            exp = self.expected(st, c, o) if reported < self.max_replays else None
+            k0 = st.known(c, o)
+            is_viol = not (k0 is not None and (k0.startswith("outside:") or self.is_known(k0)))
+            exp = self.expected(st, c, o) if (is_viol and reported < self.max_replays) else None
             if self.report(st, c, o, why, exp, reported < self.max_replays):
                 reported += 1
             else:
